@@ -25,7 +25,7 @@ func checkSubscriptionTable(c *Ctx) {
 	paths := (&Walker{P: c.P, Inline: autoInline(c.P, fn, 12)}).IterRegion(fn, loop)
 	armOf := func(pa *Path) (string, *Effect) {
 		for _, e := range pa.Effects {
-			if e.Kind == "select" && e.Blocking && e.Depth == 0 {
+			if e.Kind == "select" && e.Blocking {
 				ch := e.Sel[e.Arm].Chan
 				switch {
 				case ch.K == "invoke" && ch.S == "ShutdownRequest" && ch.A[0].IsRecvField("lc"):
@@ -167,7 +167,7 @@ func checkPublisherTable(c *Ctx) {
 	isParent := func(t *Term) bool { return t.IsRecvField("parent") }
 	armOf := func(pa *Path) (string, *Effect) {
 		for _, e := range pa.Effects {
-			if e.Kind == "select" && e.Blocking && e.Depth == 0 {
+			if e.Kind == "select" && e.Blocking {
 				ch := e.Sel[e.Arm].Chan
 				switch {
 				case ch.K == "invoke" && ch.S == "Events" && isParent(ch.A[0]):
@@ -523,7 +523,13 @@ func checkEventPathSingleSender(c *Ctx) {
 		}
 		for _, s := range sends[key] {
 			c.sites++
-			c.check(okset[s.fn], rule, key+"/sent-in/"+s.fn, c.P.instrPos(s.in), "single sending function", key+" is also sent on from "+s.fn+": a second sender can reorder or duplicate events")
+			owned := false
+			for a := range okset {
+				if f := c.P.Func("", s.fn); f != nil && c.P.ownedBy(f, "", runOfSender(a)) {
+					owned = true
+				}
+			}
+			c.check(okset[s.fn] || owned, rule, key+"/sent-in/"+s.fn, c.P.instrPos(s.in), "single sending function", key+" is also sent on from "+s.fn+": a second sender can reorder or duplicate events")
 		}
 	}
 	// callers of send(): only the two distributors; callers of filterSubscription.distributeEvents: only its run
@@ -546,16 +552,16 @@ func checkEventPathSingleSender(c *Ctx) {
 				if cc.IsInvoke() && cc.Method.Name() == "send" && typeNameOf(cc.Value.Type()) == "subscription" {
 					c.sites++
 					n := fnName(f)
-					c.check((n == "controller.distributeEvents" || n == "publisher.distributeEvent") && kind == "call", "T-WHO(send)", "subscription.send/called-in/"+n+"["+kind+"]", c.P.instrPos(in), "", "subscription.send is invoked ("+kind+") from "+n+": only the two distributors may hand events to a subscription, synchronously")
+					c.check((n == "controller.distributeEvents" || n == "publisher.distributeEvent" || c.P.ownedBy(f, "", "controller.run") || c.P.ownedBy(f, "", "publisher.run")) && kind == "call", "T-WHO(send)", "subscription.send/called-in/"+n+"["+kind+"]", c.P.instrPos(in), "", "subscription.send is invoked ("+kind+") from "+n+": only the two distributors may hand events to a subscription, synchronously")
 				}
 				if g := cc.StaticCallee(); g != nil && fnName(g) == "filterSubscription.distributeEvents" {
 					c.sites++
-					c.check(fnName(f) == "filterSubscription.run" && kind == "call", "T-WHO(send)", "filterSubscription.distributeEvents/called-in/"+fnName(f)+"["+kind+"]", c.P.instrPos(in), "", "filterSubscription.distributeEvents is used ("+kind+") outside the subscription's run loop")
+					c.check(c.P.ownedBy(f, "", "filterSubscription.run") && kind == "call", "T-WHO(send)", "filterSubscription.distributeEvents/called-in/"+fnName(f)+"["+kind+"]", c.P.instrPos(in), "", "filterSubscription.distributeEvents is used ("+kind+") outside the subscription's run loop")
 				}
 				if g := cc.StaticCallee(); g != nil && (fnName(g) == "controller.distributeEvents" || fnName(g) == "publisher.distributeEvent") {
 					c.sites++
 					owner := strings.Split(fnName(g), ".")[0] + ".run"
-					c.check(fnName(f) == owner && kind == "call", "T-WHO(send)", fnName(g)+"/called-in/"+fnName(f)+"["+kind+"]", c.P.instrPos(in), "", fnName(g)+" is used ("+kind+") outside "+owner)
+					c.check(c.P.ownedBy(f, "", owner) && kind == "call", "T-WHO(send)", fnName(g)+"/called-in/"+fnName(f)+"["+kind+"]", c.P.instrPos(in), "", fnName(g)+" is used ("+kind+") outside "+owner)
 				}
 			}
 		}
@@ -575,6 +581,19 @@ func checkEventPathSingleSender(c *Ctx) {
 				}
 			}
 		}
+		for h := range c.P.ownerClosure(f) {
+			if h == f {
+				continue
+			}
+			for _, b := range h.Blocks {
+				for _, in := range b.Instrs {
+					if g, ok := in.(*ssa.Go); ok && goCarriesEvents(g) {
+						n++
+						c.fail("T-NOSPAWN(event-path)", name+"/go-in-helper/"+fnName(h), c.P.instrPos(in), "goroutine started in "+fnName(h)+", a helper of "+name+": events handed to a spawned goroutine lose their order")
+					}
+				}
+			}
+		}
 		if n == 0 {
 			c.ok("T-NOSPAWN(event-path)", name+"/no-go", c.P.fnPos(f), "no go statement")
 		}
@@ -584,12 +603,12 @@ func checkEventPathSingleSender(c *Ctx) {
 	for _, a := range c.P.fieldAccesses("", "publisher", "subscriptions") {
 		c.sites++
 		n := fnName(a.Fn)
-		c.check(allowed[n], "T-CONFINE(publisher)", "publisher.subscriptions/accessed-in/"+n, c.P.instrPos(a.In), "", "publisher.subscriptions is accessed in "+n+", outside the publisher's run goroutine")
+		c.check(allowed[n] || c.P.ownedBy(a.Fn, "", "publisher.run"), "T-CONFINE(publisher)", "publisher.subscriptions/accessed-in/"+n, c.P.instrPos(a.In), "", "publisher.subscriptions is accessed in "+n+", outside the publisher's run goroutine")
 	}
 	for _, n := range []string{"publisher.distributeEvent", "publisher.createSubscription"} {
 		if f := c.P.Func("", n); f != nil {
 			for _, cs := range c.P.callersOf(f) {
-				c.check(fnName(cs.Fn) == "publisher.run" && cs.Kind == "call", "T-CONFINE(publisher)", n+"/called-from/"+fnName(cs.Fn), c.P.instrPos(cs.In), "", n+" is used ("+cs.Kind+") in "+fnName(cs.Fn)+", outside publisher.run")
+				c.check(c.P.ownedBy(cs.Fn, "", "publisher.run") && cs.Kind == "call", "T-CONFINE(publisher)", n+"/called-from/"+fnName(cs.Fn), c.P.instrPos(cs.In), "", n+" is used ("+cs.Kind+") in "+fnName(cs.Fn)+", outside publisher.run")
 			}
 		}
 	}
@@ -604,4 +623,49 @@ func checkEventPathSingleSender(c *Ctx) {
 		}
 		c.check(n == 1, "T-CONFINE(publisher)", "publisher.run/started-exactly-once", c.P.fnPos(f), "", fmt.Sprintf("publisher.run is started %d times", n))
 	}
+}
+
+// runOfSender maps an allowed sending function to the run function of its goroutine.
+func runOfSender(fn string) string {
+	switch fn {
+	case "_subscription.send":
+		return "_subscription.send"
+	case "filterSubscription.distributeEvents":
+		return "filterSubscription.run"
+	}
+	return fn
+}
+
+// goCarriesEvents: the spawned call hands an event on (send()/callback
+// directly, or a closure that sends on an Event channel / calls send()).
+func goCarriesEvents(g *ssa.Go) bool {
+	m := methodName(&g.Call)
+	if m == "send" || strings.HasPrefix(m, "On") || m == "distributeEvents" || m == "distributeEvent" {
+		return true
+	}
+	callee := g.Call.StaticCallee()
+	if callee == nil || callee.Blocks == nil {
+		return false
+	}
+	for _, b := range callee.Blocks {
+		for _, in := range b.Instrs {
+			switch x := in.(type) {
+			case *ssa.Send:
+				if strings.HasSuffix(typeStr(x.Chan.Type()), "Event") {
+					return true
+				}
+			case *ssa.Select:
+				for _, st := range x.States {
+					if st.Dir == types.SendOnly && strings.HasSuffix(typeStr(st.Chan.Type()), "Event") {
+						return true
+					}
+				}
+			case *ssa.Call:
+				if mm := methodName(&x.Call); mm == "send" || mm == "distributeEvents" || mm == "distributeEvent" {
+					return true
+				}
+			}
+		}
+	}
+	return false
 }
